@@ -351,6 +351,13 @@ func init() {
 			}
 			c.m.callReal(c)
 		},
+		"io.ReadAll": func(c *stubCtx) {
+			if c.m.Cfg.Opts["readall"] != "summary" {
+				c.m.callReal(c)
+				return
+			}
+			c.m.readAllSummary(c)
+		},
 		"errors.Is": func(c *stubCtx) {
 			// identity comparison only (wrapped chains built by the fmt.Errorf stub are opaque)
 			c.ret(c.m.equal(c.args[0], c.args[1], c.ins))
@@ -506,4 +513,84 @@ func (m *Machine) timeNow() Value { return mkTime(m.clock()) }
 
 func (m *Machine) advanceClock(d *smt.Term) {
 	m.now = smt.Add(m.clock(), d)
+}
+
+// callMethod invokes method name on interface value recv without advancing the caller; k receives the result.
+func (m *Machine) callMethod(c *stubCtx, recv Iface, name string, args []Value, k func(res Value)) {
+	if recv.T == nil {
+		m.goPanic(c.t, "runtime error: invalid memory address or nil pointer dereference (method call on nil interface)", c.ins)
+		return
+	}
+	ms := m.P.Prog.MethodSets.MethodSet(recv.T)
+	var fn *ssa.Function
+	for i := 0; i < ms.Len(); i++ {
+		if ms.At(i).Obj().Name() == name {
+			m.P.mu.Lock()
+			fn = m.P.Prog.MethodValue(ms.At(i))
+			m.P.mu.Unlock()
+		}
+	}
+	if fn == nil {
+		panic(unsupported("method " + name + " not found on " + recv.T.String()))
+	}
+	m.noAdvanceNext = true
+	m.invoke(c.t, &Closure{Fn: fn}, append([]Value{recv.V}, args...), c.ins, k, c.deferOwner)
+}
+
+// readAllSummary models io.ReadAll over a reader that hands out everything it has when given room:
+// Read is called with an (abstract) buffer of practically unlimited size until it reports an error; the result is an
+// abstract slice whose length is the sum of the counts returned. The chunking of the real ReadAll (512 bytes, growing)
+// is not modelled; the length and error are.
+func (m *Machine) readAllSummary(c *stubCtx) {
+	m.Res.Assumptions["io.ReadAll summarised: one Read with unlimited room per round, at most 3 rounds; chunk sizes not modelled"] = true
+	r := c.args[0].(Iface)
+	m.nextObj++
+	buf := &AbsBuf{Arr: m.zeroArr(), ID: m.nextObj}
+	big := smt.BV(64, 1<<62)
+	total := smt.BV(64, 0)
+	rounds := 0
+	var round func()
+	round = func() {
+		rounds++
+		if rounds > 3 {
+			m.end(endUnwind, "io.ReadAll summary: more than 3 rounds")
+		}
+		p := AbsSlice{B: buf, Off: total, Len: smt.Sub(big, total), Cap: smt.Sub(big, total)}
+		m.callMethod(c, r, "Read", []Value{p}, func(res Value) {
+			tp := res.(Tuple)
+			n := tp[0].(*smt.Term)
+			err := tp[1].(Iface)
+			total = smt.Add(total, n)
+			if err.T == nil {
+				round()
+				return
+			}
+			out := AbsSlice{B: buf, Off: smt.BV(64, 0), Len: total, Cap: total}
+			m.allocs = append(m.allocs, allocRec{size: total, where: "io.ReadAll"})
+			if m.isEOF(err) {
+				c.ret(Tuple{out, Iface{}})
+				return
+			}
+			c.ret(Tuple{out, err})
+		})
+	}
+	round()
+}
+
+// isEOF reports whether err is io.EOF (pointer identity with the io.EOF global).
+func (m *Machine) isEOF(err Iface) bool {
+	iop := m.P.Prog.ImportedPackage("io")
+	if iop == nil {
+		return false
+	}
+	g, ok := iop.Members["EOF"].(*ssa.Global)
+	if !ok {
+		return false
+	}
+	p := m.globalPtr(g)
+	eof, ok := p.C.E[p.I].(Iface)
+	if !ok {
+		return false
+	}
+	return m.equal(eof, err, nil).IsTrue()
 }
